@@ -7,6 +7,9 @@
    value descriptors, the packed configuration as the generic Unpack shows it,
    whether the typed round trip reproduced the value, and - for a random setting
    of that configuration and a random faulty replacement - how Unpack failed.
+   The same event carries a FRAME part (C13): a second random value of the type as
+   pre-filled target, a random set of top-level settings removed, a random global list
+   policy (default / append / prepend / replace), the unpacked result.
    TLC evaluates the specification on the same descriptors:
      tree   = Obs(Pack(ty, val))                      (C06, intermediate)
      back   = "same"                                  (C06: identity)
@@ -38,6 +41,71 @@ SameT(a, b) ==
        /\ \A q \in DOMAIN a.d : SameT(a.d[q], b.d[q])
        /\ \A i \in 1..Len(a.a) : SameT(a.a[i], b.a[i])
 
+(* ---- C13 (frame) on the same random types: the configuration packed from `val`, with the settings of the top-level
+   fields listed in `drop` removed, is unpacked into a target pre-filled with a second value `old` of the type.
+   "Unpack overwrites exactly the fields for which the configuration has a setting (recursively, merging lists and
+   maps according to the active policy) and leaves every other field as it was":
+     a nil pointer / slice / map of `val` packs to no setting - the old value stays
+     pointer: what it points to is overlaid (allocated first when old is nil); struct: field by field, ignored fields stay
+     slice: index-wise, the longer tail of old kept; array: element by element; map: key by key, old keys kept
+     everything else: the new value.  Compared modulo nil ~ empty collections (as C06 does).                      *)
+IsNilV(v) == "nil" \in DOMAIN v
+RECURSIVE ZeroV(_)
+ZeroV(t) ==
+  CASE t.k = "bool" -> V("bool", FALSE)
+    [] t.k \in {"int8", "int16", "int32", "int64", "int"} -> V("int", "0")
+    [] t.k \in {"uint8", "uint16", "uint32", "uint64", "uint"} -> V("uint", "0")
+    [] t.k \in {"float32", "float64"} -> V("float", "0")
+    [] t.k \in {"string", "ustr", "uany"} -> V("string", "")
+    [] t.k = "dur" -> V("dur", "0")
+    [] t.k \in {"ptr", "slice", "map"} -> NilV(t.k)
+    [] t.k = "array" -> [k |-> "array", xs |-> [i \in 1..t.n |-> ZeroV(t.e)]]
+    [] t.k = "struct" -> [k |-> "struct", f |-> [i \in 1..Len(t.f) |-> ZeroV(t.f[i].t)]]
+MaxOf(a, b) == IF a > b THEN a ELSE b
+RECURSIVE Ov(_,_,_,_)
+Ov(pol, t, old, new) ==
+  \* a nil or empty slice packs to an EMPTY LIST setting: under the replace policy that setting replaces the old list
+  IF t.k = "slice" /\ pol = "replace" /\ (IsNilV(new) \/ new.xs = <<>>) THEN NilV("slice")
+  ELSE IF IsNilV(new) THEN old
+  ELSE CASE t.k = "ptr" -> [k |-> "ptr", p |-> Ov(pol, t.e, IF IsNilV(old) THEN ZeroV(t.e) ELSE old.p, new.p)]
+         [] t.k = "slice" ->
+              IF new.xs = <<>> THEN old
+              ELSE LET oxs == IF IsNilV(old) THEN <<>> ELSE old.xs
+                       ol  == Len(oxs)
+                       nl  == Len(new.xs)
+                       fresh(j) == Ov(pol, t.e, ZeroV(t.e), new.xs[j])
+                       onto(j)  == Ov(pol, t.e, IF j <= ol THEN oxs[j] ELSE ZeroV(t.e), new.xs[j]) IN
+                   \* the list policies (UcfgReify.SliceLayout): append = old then new, prepend = new then old, replace = the
+                   \* new length (still merged INTO the old element of the same index), default = index-wise, longer tail kept
+                   [k |-> "slice", xs |->
+                      CASE pol = "append"  -> [i \in 1..(ol + nl) |-> IF i <= ol THEN oxs[i] ELSE fresh(i - ol)]
+                        [] pol = "prepend" -> [i \in 1..(ol + nl) |-> IF i <= nl THEN fresh(i) ELSE oxs[i - nl]]
+                        [] pol = "replace" -> [i \in 1..nl |-> onto(i)]
+                        [] OTHER -> [i \in 1..MaxOf(ol, nl) |-> IF i <= nl THEN onto(i) ELSE oxs[i]]]
+         [] t.k = "array" -> [k |-> "array", xs |-> [i \in 1..Len(new.xs) |-> Ov(pol, t.e, old.xs[i], new.xs[i])]]
+         [] t.k = "map" ->
+              IF DOMAIN new.m = {} THEN old
+              ELSE LET om == IF IsNilV(old) THEN <<>> ELSE old.m IN
+                   [k |-> "map", m |-> [q \in DOMAIN om \cup DOMAIN new.m |->
+                        IF q \notin DOMAIN new.m THEN om[q] ELSE Ov(pol, t.e, IF q \in DOMAIN om THEN om[q] ELSE ZeroV(t.e), new.m[q])]]
+         [] t.k = "struct" -> [k |-> "struct", f |-> [i \in 1..Len(t.f) |->
+                                 IF t.f[i].mode = "ignore" THEN old.f[i] ELSE Ov(pol, t.f[i].t, old.f[i], new.f[i])]]
+         [] OTHER -> new
+RECURSIVE NormV(_,_)
+NormV(t, v) ==
+  IF IsNilV(v) THEN NilV(t.k)
+  ELSE CASE t.k = "ptr" -> [k |-> "ptr", p |-> NormV(t.e, v.p)]
+         [] t.k = "slice" -> IF v.xs = <<>> THEN NilV("slice") ELSE [k |-> "slice", xs |-> [i \in 1..Len(v.xs) |-> NormV(t.e, v.xs[i])]]
+         [] t.k = "array" -> [k |-> "array", xs |-> [i \in 1..Len(v.xs) |-> NormV(t.e, v.xs[i])]]
+         [] t.k = "map" -> IF DOMAIN v.m = {} THEN NilV("map") ELSE [k |-> "map", m |-> [q \in DOMAIN v.m |-> NormV(t.e, v.m[q])]]
+         [] t.k = "struct" -> [k |-> "struct", f |-> [i \in 1..Len(t.f) |-> NormV(t.f[i].t, v.f[i])]]
+         [] OTHER -> [k |-> v.k, v |-> v.v]
+FrameWant(ev) ==
+  [k |-> "struct", f |-> [i \in 1..Len(ev.ty.f) |->
+      IF (\E j \in 1..Len(ev.frame.drop) : ev.frame.drop[j] = i) \/ ev.ty.f[i].mode = "ignore" THEN ev.frame.old.f[i]
+      ELSE Ov(ev.frame.pol, ev.ty.f[i].t, ev.frame.old.f[i], ev.frame.new.f[i])]]
+FrameOK(ev) == "got" \in DOMAIN ev.frame /\ NormV(ev.ty, ev.frame.got) = NormV(ev.ty, FrameWant(ev))
+
 FaultClaim(ev) ==
   LET ss == {s \in Sites(ev.ty, ev.val, <<>>) : s.p = ev.fault.path} IN
   IF ss = {} THEN FALSE
@@ -47,6 +115,7 @@ EventOK(ev) ==
   /\ SameT(ObsT(Pack(ev.ty, ev.val)), ev.tree)
   /\ ev.back = "same"
   /\ ("fault" \in DOMAIN ev /\ FaultClaim(ev) => FaultOK(ev))
+  /\ ("frame" \in DOMAIN ev => FrameOK(ev))
 Init == l = 1 /\ known = [d \in Known |-> 0] /\ bad = <<>> /\ nviol = 0 /\ nfault = 0
 Next ==
   /\ l <= NEv /\ l' = l + 1
@@ -55,7 +124,8 @@ Next ==
      /\ IF EventOK(ev) THEN UNCHANGED <<known, bad, nviol>>
         ELSE /\ nviol' = nviol + 1
              /\ bad' = IF Len(bad) < 5 THEN Append(bad, [l |-> l, want |-> [tree |-> ObsT(Pack(ev.ty, ev.val)), back |-> "same",
-                                                          fault |-> IF "fault" \in DOMAIN ev /\ FaultClaim(ev) THEN "error naming the path and the source" ELSE "no claim"]]) ELSE bad
+                                                          fault |-> IF "fault" \in DOMAIN ev /\ FaultClaim(ev) THEN "error naming the path and the source" ELSE "no claim",
+                                                          frame |-> IF "frame" \in DOMAIN ev THEN NormV(ev.ty, FrameWant(ev)) ELSE <<>>]]) ELSE bad
              /\ UNCHANGED known
 Spec == Init /\ [][Next]_vars
 Report == l = NEv + 1 =>
